@@ -646,6 +646,12 @@ class _Formatter:
     # ---------------------------------------------------------------
     def _render_token(self, tok) -> str:
         if tok.type == COMMENT:
+            if self._macro_until_depth > 0 or self._macro_alias_line:
+                # Inside a macro body ``#`` is raw text: the gap before it
+                # was copied from the source, so the token must be copied
+                # verbatim too (a stray leading space reported as part of
+                # the token would otherwise be dropped on every pass).
+                return tok.string
             return _format_comment(tok.string)
         if tok.type == FSTRING_MIDDLE:
             # ``tok.string`` for ``FSTRING_MIDDLE`` is the *decoded*
